@@ -451,6 +451,12 @@ class Path:
         if r == z3.unsat:
             ob.discharged += 1
             ob.backends.add('z3-' + z3.get_version_string())
+            if self.x.cross_check and name not in self.x.crossed:
+                from . import smt2
+                r2 = smt2.cvc5_check(self.solver, z3.Not(e), 10000)
+                self.x.crossed[name] = r2
+                if r2 == 'unsat':
+                    ob.backends.add('cvc5 (cross-check)')
         elif r == z3.sat:
             if len(ob.failed) < 2:
                 m = self.solver.model()
@@ -546,7 +552,12 @@ class Explorer:
     """Runs a proof function over all its paths."""
 
     def __init__(self, branch_timeout_ms=5000, query_timeout_ms=10000,
-                 max_paths=60000, use_cvc5=True):
+                 max_paths=60000, use_cvc5=True, cross_check=False):
+        # cross_check: the first z3-discharged query of every obligation is
+        # also put to cvc5 (thorough tier); a `sat` there is a solver
+        # disagreement and reported as a checker error
+        self.cross_check = cross_check
+        self.crossed = {}
         self.branch_timeout_ms = branch_timeout_ms
         self.query_timeout_ms = query_timeout_ms
         self.max_paths = max_paths
